@@ -50,6 +50,12 @@ pub fn check_cmd(args: &[String]) -> i32 {
     let t0 = Instant::now();
     let mut rep = match a.prop.as_str() {
         "C01" => c01(&a),
+        "C02" => c02(&a),
+        "C04" => c04(&a),
+        "C07" => c07(&a),
+        "C10" => c10(&a),
+        "C13" => c13(&a),
+        "C15" => c15(&a),
         p => {
             eprintln!("no check for {p}");
             return 2;
@@ -63,7 +69,7 @@ pub fn selftest() -> i32 {
     let spec = SeqSpec::new("selftest", vec![], 0);
     let h = vec![Op::w(0, 1), Op::Rot, Op::d(0, 2), Op::Tick, Op::w(1, 1), Op::Rst, Op::w(0, 3)];
     let mut spec = spec;
-    spec.checks = Checks { outcome: true, latest: true, history: true, accounting: true, filters: true, transparent: true, no_harm: true, alive: true, sync: false };
+    spec.checks = Checks { outcome: true, latest: true, history: true, accounting: true, filters: true, transparent: true, no_harm: true, alive: true, sync: false, rotation: false };
     for mode in [IoMode::Inplace, IoMode::Background] {
         spec.io_mode = mode;
         let r1 = seq::run_history_dyn(&spec, &h);
@@ -170,4 +176,182 @@ fn c01(a: &Args) -> Report {
     let results: Vec<_> = specs.iter().map(|s| seq::bfs(s, a.threads, &no_known)).collect();
     let _ = evidence::verif_root();
     seq_report("C01", a, "model_checking", results, "BFS over operation sequences; a state is the canonical reference-model state; distinct_nontrivial counts distinct query-answer vectors observed")
+}
+
+fn run_specs(specs: &[SeqSpec], a: &Args, known: &seq::KnownFn) -> Vec<seq::SeqResult> {
+    specs.iter().map(|s| seq::bfs(s, a.threads, known)).collect()
+}
+
+const SEQ_RULE: &str = "BFS over operation sequences; a state is the canonical reference-model state; every (state, op) transition is executed on the real storage; distinct_nontrivial counts distinct query-answer vectors observed";
+
+fn c02(a: &Args) -> Report {
+    let thorough = a.tier == "thorough";
+    let mut alphabet = Vec::new();
+    for ts in [1u64, 2] {
+        for meta in [None, Some(1u8), Some(2)] {
+            alphabet.push(Op::Write { k: 0, ts, meta, size: 24 });
+        }
+        for oip in [true, false] {
+            alphabet.push(Op::Delete { k: 0, ts, oip, meta: 0 });
+        }
+    }
+    alphabet.push(Op::Delete { k: 0, ts: 2, oip: false, meta: 1 });
+    alphabet.push(Op::Rot);
+    alphabet.push(Op::w(1, 1));
+    let mut specs = Vec::new();
+    for dup in [true, false] {
+        let mut s = SeqSpec::new(&format!("C02/allow_duplicates={dup}"), alphabet.clone(), if thorough { 5 } else { 4 });
+        s.wcfg.allow_duplicates = dup;
+        s.metas = vec![0, 1, 2];
+        s.checks = Checks { outcome: true, latest: true, history: true, ..Default::default() };
+        specs.push(s);
+    }
+    // deeper on a smaller alphabet: three blobs contributing, markers below live puts
+    let small = vec![
+        Op::Write { k: 0, ts: 1, meta: Some(1), size: 24 },
+        Op::Write { k: 0, ts: 2, meta: Some(2), size: 24 },
+        Op::w(0, 3),
+        Op::Delete { k: 0, ts: 2, oip: true, meta: 0 },
+        Op::Delete { k: 0, ts: 1, oip: false, meta: 0 },
+        Op::Rot,
+    ];
+    let mut s = SeqSpec::new("C02/deep-small", small, if thorough { 8 } else { 6 });
+    s.metas = vec![0, 1, 2];
+    s.checks = Checks { outcome: true, latest: true, history: true, ..Default::default() };
+    specs.push(s);
+    let results = run_specs(&specs, a, &no_known);
+    seq_report("C02", a, "model_checking", results, SEQ_RULE)
+}
+
+fn lifecycle_alphabet() -> Vec<Op> {
+    vec![
+        Op::TryClose,
+        Op::TryCreate,
+        Op::TryRestore,
+        Op::Rot,
+        Op::ForceNever,
+        Op::FreeExcess,
+        Op::Offload { level: 0 },
+        Op::Offload { level: 1 },
+        Op::Fsync,
+        Op::Tick,
+    ]
+}
+
+fn c04(a: &Args) -> Report {
+    let thorough = a.tier == "thorough";
+    let mut alphabet = vec![Op::w(0, 1), Op::w(1, 2), Op::w(0, 2), Op::d(0, 2)];
+    alphabet.extend(lifecycle_alphabet());
+    let mut specs = Vec::new();
+    for (gs, depth) in [(2usize, if thorough { 5 } else { 4 }), (3, if thorough { 5 } else { 3 }), (8, if thorough { 4 } else { 3 })] {
+        let mut s = SeqSpec::new(&format!("C04/seq/group{gs}"), alphabet.clone(), depth);
+        s.wcfg.group_size = gs;
+        s.checks = Checks { outcome: true, latest: true, history: true, filters: true, transparent: true, alive: true, ..Default::default() };
+        specs.push(s);
+    }
+    let mut s = specs[0].clone();
+    s.name = "C04/seq/group2/background-io".into();
+    s.io_mode = IoMode::Background;
+    s.depth -= 1;
+    specs.push(s);
+    let results = run_specs(&specs, a, &no_known);
+    seq_report("C04", a, "model_checking", results, SEQ_RULE)
+}
+
+fn c07(a: &Args) -> Report {
+    let thorough = a.tier == "thorough";
+    let alphabet = vec![
+        Op::w(0, 1),
+        Op::d(0, 2),
+        Op::Rot,
+        Op::TryClose,
+        Op::TryRestore,
+        Op::TryCreate,
+        Op::Rst,
+        Op::RstLazy,
+        Op::DamageRst,
+    ];
+    let mut s = SeqSpec::new("C07/seq", alphabet, if thorough { 6 } else { 4 });
+    s.checks = Checks { no_harm: true, ..Default::default() };
+    let results = run_specs(&[s], a, &no_known);
+    seq_report("C07", a, "model_checking", results, SEQ_RULE)
+}
+
+fn c10(a: &Args) -> Report {
+    let thorough = a.tier == "thorough";
+    let alphabet = vec![
+        Op::w(0, 1),
+        Op::w(1, 1),
+        Op::w(2, 1),
+        Op::w(3, 1),
+        Op::Rot,
+        Op::TryClose,
+        Op::TryRestore,
+        Op::d(0, 2),
+        Op::Offload { level: 0 },
+        Op::Offload { level: 1 },
+        Op::Offload { level: 2 },
+        Op::Rst,
+    ];
+    let mut specs = Vec::new();
+    for (gs, bloom) in [(2usize, BloomCfg::Bits(64)), (3, BloomCfg::Bits(70)), (2, BloomCfg::None)] {
+        let mut s = SeqSpec::new(&format!("C10/storage/group{gs}/{bloom:?}"), alphabet.clone(), if thorough { 5 } else { 4 });
+        s.wcfg.group_size = gs;
+        s.wcfg.bloom = bloom;
+        s.keys = vec![0, 1, 2, 3, crate::world::ABSENT_KEY];
+        s.checks = Checks { latest: true, filters: true, ..Default::default() };
+        specs.push(s);
+    }
+    let results = run_specs(&specs, a, &no_known);
+    seq_report("C10", a, "model_checking", results, SEQ_RULE)
+}
+
+fn c13(a: &Args) -> Report {
+    let thorough = a.tier == "thorough";
+    let alphabet = vec![
+        Op::CloseBg,
+        Op::CreateBg,
+        Op::RestoreBg,
+        Op::TryClose,
+        Op::TryCreate,
+        Op::TryRestore,
+        Op::Rot,
+        Op::ForceNever,
+        Op::FreeExcess,
+        Op::w(0, 1),
+        Op::d(0, 2),
+        Op::RstLazy,
+    ];
+    let mut s = SeqSpec::new("C13/seq", alphabet, if thorough { 4 } else { 3 });
+    s.wcfg.max_data_in_blob = 2;
+    s.epilogue = vec![Op::w(7, 1), Op::w(7, 2), Op::w(7, 3), Op::Tick];
+    s.keys = vec![0, 7];
+    s.checks = Checks { alive: true, rotation: true, ..Default::default() };
+    let results = run_specs(&[s], a, &no_known);
+    seq_report("C13", a, "model_checking", results, SEQ_RULE)
+}
+
+fn c15(a: &Args) -> Report {
+    let thorough = a.tier == "thorough";
+    let alphabet = vec![
+        Op::w(0, 1),
+        Op::w(1, 1),
+        Op::d(0, 2),
+        Op::TryClose,
+        Op::TryRestore,
+        Op::TryCreate,
+        Op::Rot,
+        Op::DamageRst,
+        Op::Rst,
+        Op::RstLazy,
+    ];
+    let mut specs = Vec::new();
+    for gs in [2usize, 8] {
+        let mut s = SeqSpec::new(&format!("C15/seq/group{gs}"), alphabet.clone(), if thorough { 6 } else { 4 });
+        s.wcfg.group_size = gs;
+        s.checks = Checks { accounting: true, ..Default::default() };
+        specs.push(s);
+    }
+    let results = run_specs(&specs, a, &no_known);
+    seq_report("C15", a, "model_checking", results, SEQ_RULE)
 }
